@@ -7,7 +7,7 @@
    Quantification: every world, every pair of accounts and banks, every amount. *)
 Require Import Base Constants Fixed Curve Bank BankOps Risk TransferFee Handlers.
 Require Import FixedLemmas BankLemmas HandlerLemmas ErrLemmas RiskGateLemmas LiquidationLemmas.
-Require Import SolvencyWorld HandlerWorld BridgeLemmas.
+Require Import SolvencyWorld HandlerWorld BridgeLemmas NoRiskAccounts.
 Local Open Scope Z_scope.
 
 (* ---- eligibility, improvement, bound.  h0 = maintenance health of the liquidatee's (sorted) positions in
@@ -139,7 +139,15 @@ Proof.
   vm_compute. split; repeat constructor; discriminate.
 Qed.
 
+(* the liquidation instruction sent WITHOUT the risk (bank / oracle) accounts of either party (h_liquidate is
+   h_liquidate_gen with the real position loader, h_liquidate_norem the same code with the loader handed an empty account
+   list) never succeeds: the health of the liquidatee cannot be established *)
+Theorem C05_liquidation_without_risk_accounts_never_succeeds :
+  forall w r e ab lb n w', h_liquidate_norem w r e ab lb n = Ok w' -> False.
+Proof. exact liquidate_norem_never_succeeds. Qed.
+
 Print Assumptions C05_only_unhealthy_improves_bounded.
+Print Assumptions C05_liquidation_without_risk_accounts_never_succeeds.
 Print Assumptions C05_precheck_alone_accepts_zero.
 Print Assumptions C05_no_flip_and_overliquidation_guard.
 Print Assumptions C05_liquidator_remains_initially_healthy.
